@@ -1203,7 +1203,7 @@ class Executor(object):
                 o = st.obj(v)
                 fld = self.mangle(parts[-1], ctx)
                 if fld == "*":
-                    o.fields = {k: self.havoc_like(x, k) for k, x in o.fields.items()}
+                    self.havoc_object(v.oid, st, set())
                 elif fld in o.fields:
                     o.fields[fld] = self.havoc_like(o.fields[fld], fld)
                 else:
@@ -1912,12 +1912,16 @@ class Executor(object):
                         if con is not None:
                             for mod in con.modifies:
                                 parts = mod.split(".")
+                                fcls = fi.cls if fi is not None else cls
                                 if len(parts) == 2:
-                                    fcls = fi.cls if fi is not None else cls
                                     if parts[1] == "*":
                                         whole.add(recv.oid)
                                     else:
                                         fields.add((recv.oid, mangle(parts[1], fcls)))
+                                elif len(parts) == 3 and parts[2] == "*":
+                                    sub = o.fields.get(mangle(parts[1], fcls))
+                                    if isinstance(sub, Ref):
+                                        whole.add(sub.oid)
                             continue
                         if fi is not None:
                             visit_callee(fi, recv, depth)
